@@ -19,6 +19,10 @@ type SwComponents[I ISwComponent] struct {
 
 func (o SwComponents[I]) Validate() error {
 	for i, sc := range o.values {
+		if isNilSwComponent(sc) {
+			return fmt.Errorf("failed at index %d: %w: nil component", i, ErrWrongSyntax)
+		}
+
 		if err := sc.Validate(); err != nil {
 			return fmt.Errorf("failed at index %d: %w", i, err)
 		}
@@ -31,6 +35,10 @@ func (o SwComponents[I]) Values() ([]ISwComponent, error) {
 	ret := make([]ISwComponent, len(o.values))
 
 	for i, sc := range o.values {
+		if isNilSwComponent(sc) {
+			return nil, fmt.Errorf("failed at index %d: %w: nil component", i, ErrWrongSyntax)
+		}
+
 		if err := sc.Validate(); err != nil {
 			return nil, fmt.Errorf("failed at index %d: %w", i, err)
 		}
@@ -81,6 +89,13 @@ func (o SwComponents[I]) MarshalJSON() ([]byte, error) {
 
 func (o *SwComponents[I]) UnmarshalJSON(v []byte) error {
 	return json.Unmarshal(v, &o.values)
+}
+
+// isNilSwComponent reports whether sc is a nil pointer (e.g. a list element
+// that was decoded from a CBOR or JSON null).
+func isNilSwComponent[I ISwComponent](sc I) bool {
+	v := reflect.ValueOf(sc)
+	return !v.IsValid() || (v.Kind() == reflect.Pointer && v.IsNil())
 }
 
 func validateAndConvert[I ISwComponent](vals []ISwComponent) ([]I, error) {
